@@ -211,8 +211,8 @@ OPTION_POOLS = {
     "port": [5003, 1, "5003", 65535],
     "timeout": [0.5, 2, None, 0.0, 1.0],
     "reconnect_timeout": [3.0, 1, 0, 10.0],
-    "in_prefix": ["", "a", "a/b", "mygw-in", "ü"],
-    "out_prefix": ["", "b", "c/d", "mygw-out"],
+    "in_prefix": ["", "a", "a/b", "mygw-in", "ü", "attic(2)/in", "gw[1]", "what?", "a.b+"],
+    "out_prefix": ["", "b", "c/d", "mygw-out", "out(1)"],
     "retain": [True, False, 0, 1, None],
 }
 UNDOCUMENTED = ["timeout", "reconnect_timeout", "baud", "port", "host", "in_prefix", "retain", "foo", "transport",
